@@ -9,7 +9,9 @@ Open Scope Z_scope.
 (* ---------- kinds ---------- *)
 Definition is_int v := match v with VInt _ => true | _ => false end.
 Definition is_float v := match v with VFloat _ => true | _ => false end.
-Definition is_num v := match v with VInt _ | VFloat _ => true | _ => false end.
+Definition is_complex v := match v with VComplex _ _ => true | _ => false end.
+Definition is_real v := match v with VInt _ | VFloat _ => true | _ => false end.                    (* AS.Real *)
+Definition is_num v := match v with VInt _ | VFloat _ | VComplex _ _ => true | _ => false end.       (* AS.Number *)
 Definition is_bool v := match v with VBool _ => true | _ => false end.
 Definition is_str v := match v with VStr _ => true | _ => false end.
 Definition is_bytes v := match v with VBytes _ => true | _ => false end.
@@ -19,7 +21,7 @@ Definition is_err v := match v with VErr _ _ => true | _ => false end.
 Definition is_fun v := match v with VFun _ => true | _ => false end.
 Definition is_io v := match v with VIO _ => true | _ => false end.
 Definition is_seq v := is_list v || is_str v || is_bytes v.
-Definition is_callable v := is_fun v || is_bool v || is_seq v || is_dict v || is_err v.
+Definition is_callable v := is_fun v || is_bool v || is_seq v || is_dict v || is_err v || is_complex v.
 Definition orp (p q : value -> bool) v := p v || q v.
 
 (* ---------- utils.py ---------- *)
@@ -91,7 +93,13 @@ Definition nkey_eqb (a b:nkeyv) : bool :=
   | KFin s m e, KFin s' m' e' => Bool.eqb s s' && Pos.eqb m m' && (e =? e')
   | KInf s, KInf s' => Bool.eqb s s'
   | _, _ => false end.
-Definition num_eq (a b:value) : bool := nkey_eqb (nkey a) (nkey b).
+(* a number's key is the pair (real part, imaginary part); integers and reals have imaginary part zero: complex(a, b) == r  iff  b == 0 and a == r *)
+Definition ckey (v:value) : nkeyv * nkeyv :=
+  match v with
+  | VComplex r i => (nkey (VFloat r), nkey (VFloat i))
+  | VInt _ | VFloat _ => (nkey v, KZero)
+  | _ => (KNone, KNone) end.
+Definition num_eq (a b:value) : bool := nkey_eqb (fst (ckey a)) (fst (ckey b)) && nkey_eqb (snd (ckey a)) (snd (ckey b)).
 Definition fun_eq (f g:funv) : bool :=
   match f, g with
   | FClo p, FClo q => Pos.eqb p q
@@ -101,7 +109,7 @@ Definition fun_eq (f g:funv) : bool :=
 Definition codes_eq (x y:list N) : bool := if list_eq_dec N.eq_dec x y then true else false.
 Fixpoint veqb (a b:value) {struct a} : bool :=
   match a, b with
-  | VInt _, _ | VFloat _, _ => num_eq a b
+  | VInt _, _ | VFloat _, _ | VComplex _ _, _ => num_eq a b
   | VBool x, VBool y => Bool.eqb x y
   | VStr x, VStr y => codes_eq x y
   | VBytes x, VBytes y => codes_eq x y
@@ -132,9 +140,9 @@ Definition b_throw := -58. Definition b_try := -22. Definition b_pipe := -1. Def
 Definition b_input := 3. Definition b_print := -31. Definition b_return := -48. Definition b_bind := -24.
 Definition b_eq := 1. Definition b_not := 4. Definition b_lt := 7. Definition b_true := -63. Definition b_false := -56.
 Definition b_len := -23. Definition b_slice := -61. Definition b_map := -20. Definition b_filter := -46. Definition b_fold := -30.
-Definition b_floatc := -54. Definition b_int := -55. Definition b_split := -29. Definition b_join := -32. Definition b_import := 5.
+Definition b_complexc := -53. Definition b_floatc := -54. Definition b_int := -55. Definition b_split := -29. Definition b_join := -32. Definition b_import := 5.
 Definition c_unmodelled := 999.   (* outside the model: the harness skips the case *)
-Definition builtin_names : list Z := [b_floatc;b_int;b_split;b_join;b_import;b_mul;b_add;b_pow;b_div;b_mod;b_exc;b_list;b_str;b_nil;b_dict;b_throw;b_try;b_pipe;b_collect;b_spread;
+Definition builtin_names : list Z := [b_complexc;b_floatc;b_int;b_split;b_join;b_import;b_mul;b_add;b_pow;b_div;b_mod;b_exc;b_list;b_str;b_nil;b_dict;b_throw;b_try;b_pipe;b_collect;b_spread;
   b_input;b_print;b_return;b_bind;b_eq;b_not;b_lt;b_true;b_false;b_len;b_slice;b_map;b_filter;b_fold].
 
 (* proc_functional *)
@@ -145,7 +153,7 @@ Definition proc_functional (sp:span) (f:Z + value) (general:bool) : Comp evalr :
       check_type sp [v] (if general then is_callable else is_fun) ;;;
       match v with
       | VBool b => Ret (EBool b) | VDict d => Ret (EDict d)
-      | VList _ | VStr _ | VBytes _ | VErr _ _ => Ret (ESeq v)
+      | VList _ | VStr _ | VBytes _ | VErr _ _ | VComplex _ _ => Ret (ESeq v)
       | VFun g => Ret (EFun g)
       | _ => raise c_type sp end
   end.
@@ -163,8 +171,8 @@ Fixpoint all_bools (sp:span) (argv:list value) (stop_on:bool) : Comp value :=   
   | a :: r => x <- force a ;; check_type sp [x] is_bool ;;;
       match x with VBool b => if Bool.eqb b stop_on then Ret (VBool stop_on) else all_bools sp r stop_on | _ => raise c_type sp end
   end.
-Definition nums_of (l:list value) : list num := flat_map (fun v => match v with VInt n => [NI n] | VFloat f => [NF f] | _ => [] end) l.
-Definition val_of_num (n:num) : value := match n with NI z => VInt z | NF f => VFloat f end.
+Definition nums_of (l:list value) : list num := flat_map (fun v => match v with VInt n => [NI n] | VFloat f => [NF f] | VComplex r i => [NC r i] | _ => [] end) l.
+Definition val_of_num (n:num) : value := match n with NI z => VInt z | NF f => VFloat f | NC r i => VComplex r i end.
 Definition ints_of (l:list value) : list Z := flat_map (fun v => match v with VInt n => [n] | _ => [] end) l.
 Definition bi_multiply (sp:span) (argv:list value) : Comp value :=
   check_min_arity sp (length argv) 1 ;;;
@@ -199,10 +207,10 @@ Definition real_binop (sp:span) (op:spec_float -> spec_float -> fres) (a d:value
   | _, _ => raise c_arith sp       (* repaired: host OverflowError *)
   end.
 Definition bi_div (sp:span) (argv:list value) : Comp value :=
-  vs <- match_arguments sp argv is_num [2%nat] ;;
+  vs <- match_arguments sp argv is_real [2%nat] ;;
   match vs with [VInt a; VInt d] => if d =? 0 then raise c_div sp else Ret (VInt (int_div a d)) | [a; d] => real_binop sp py_truncdiv a d | _ => raise c_type sp end.
 Definition bi_mod (sp:span) (argv:list value) : Comp value :=
-  vs <- match_arguments sp argv is_num [2%nat] ;;
+  vs <- match_arguments sp argv is_real [2%nat] ;;
   match vs with [VInt a; VInt d] => if d =? 0 then raise c_div sp else Ret (VInt (int_rem a d)) | [a; d] => real_binop sp py_fmod a d | _ => raise c_type sp end.
 
 (* ---------- logic.py ---------- *)
@@ -216,7 +224,7 @@ Definition bi_eq (sp:span) (argv:list value) : Comp value := equals_loop argv No
 Definition bi_not (sp:span) (argv:list value) : Comp value :=
   vs <- match_arguments sp argv is_bool [1%nat] ;; match vs with [VBool b] => Ret (VBool (negb b)) | _ => raise c_type sp end.
 Definition bi_lt (sp:span) (argv:list value) : Comp value :=
-  vs <- match_arguments sp argv is_num [2%nat] ;;
+  vs <- match_arguments sp argv is_real [2%nat] ;;
   match vs with
   | [VInt a; VInt b] => Ret (VBool (a <? b))
   | [VInt a; VFloat b] => Ret (VBool (match cmp_zf a b with Some Lt => true | _ => false end))
@@ -238,7 +246,7 @@ Definition bi_dict (sp:span) (argv:list value) : Comp value :=
 Definition bi_list (sp:span) (argv:list value) : Comp value := Ret (VList argv).
 Definition bi_string (sp:span) (argv:list value) : Comp value :=
   vs <- match_arguments sp argv (orp is_num is_str) [0%nat; 1%nat] ;;
-  match vs with [] => Ret (VStr []) | [VInt n] => Ret (VStr (str_of_int n)) | [VFloat _] => raise c_unmodelled sp | [v] => Ret v | _ => raise c_value sp end.
+  match vs with [] => Ret (VStr []) | [VInt n] => Ret (VStr (str_of_int n)) | [VFloat _] | [VComplex _ _] => raise c_unmodelled sp | [v] => Ret v | _ => raise c_value sp end.
 Definition bi_nil (sp:span) (argv:list value) : Comp value := check_arity sp (length argv) [0%nat] ;;; Ret VNil.
 Definition bi_exception (sp:span) (argv:list value) : Comp value := vs <- map_strict argv ;; Ret (VErr [sp] vs).
 
@@ -360,7 +368,7 @@ Definition bi_pow (sp:span) (argv:list value) : Comp value :=
   vs <- match_arguments sp argv is_num [2%nat; 3%nat] ;;
   match vs with
   | [VFloat f; VInt e] => match pow2_exp (VFloat f) with Some k => match pow2_result k e with Some v => Ret v | None => raise c_unmodelled sp end | None => raise c_unmodelled sp end
-  | [VFloat _; _] | [_; VFloat _] => raise c_unmodelled sp
+  | [VFloat _; _] | [_; VFloat _] | [VComplex _ _; _] | [_; VComplex _ _] => raise c_unmodelled sp
   | [VInt b; VInt e] => if 0 <=? e then Ret (VInt (b ^ e)) else if b =? 0 then raise c_div sp else
       match pow2_exp (VInt b) with Some k => match pow2_result k e with Some v => Ret v | None => raise c_unmodelled sp end | None => raise c_unmodelled sp end
   | [VInt b; VInt e; VInt m] =>
@@ -384,7 +392,7 @@ Definition parse_int (s:list N) (base:Z) : option Z :=
   | [] => None end.
 Definition simple_numeral (s:list N) : bool := forallb (fun c => match digit_val c with Some _ => true | None => N.eqb c 45 || N.eqb c 43 end) s.
 Definition bi_integer (sp:span) (argv:list value) : Comp value :=
-  vs <- match_arguments sp argv (orp is_num is_str) [1%nat; 2%nat] ;;
+  vs <- match_arguments sp argv (orp is_real is_str) [1%nat; 2%nat] ;;
   match vs with
   | VInt n :: rest => check_arity sp (length vs) [1%nat] ;;; Ret (VInt n)
   | VFloat f :: rest => check_arity sp (length vs) [1%nat] ;;; match rounding 0 f with Some n => Ret (VInt n) | None => raise c_value sp (* repaired: host OverflowError / ValueError *) end
@@ -396,11 +404,27 @@ Definition bi_integer (sp:span) (argv:list value) : Comp value :=
   | _ => raise c_type sp end.
 
 Definition bi_float (sp:span) (argv:list value) : Comp value :=
-  vs <- match_arguments sp argv (orp is_num is_str) [1%nat; 2%nat] ;;
+  vs <- match_arguments sp argv (orp is_real is_str) [1%nat; 2%nat] ;;
   match vs with
   | VInt n :: rest => check_arity sp (length vs) [1%nat] ;;; match float_of_int n with Some f => Ret (VFloat f) | None => raise c_arith sp (* repaired: host OverflowError *) end
   | VFloat f :: rest => check_arity sp (length vs) [1%nat] ;;; Ret (VFloat f)
   | _ => raise c_unmodelled sp end.
+
+(* ㅂㅅ: complex(real, imag) of CPython - either part may itself be complex:  real - Im(imag)  and  Re(imag) + Im(real) *)
+Definition cparts (a:num) : option (spec_float * spec_float * bool) :=
+  match a with
+  | NI x => match float_of_int x with Some f => Some (f, f_zero, false) | None => None end
+  | NF f => Some (f, f_zero, false)
+  | NC r i => Some (r, i, true) end.
+Definition bi_complex (sp:span) (argv:list value) : Comp value :=
+  vs <- match_arguments sp argv (orp is_num is_str) [1%nat; 2%nat] ;;
+  if forallb is_num vs then
+    let '(a, b) := match nums_of vs with [a] => (a, NF f_zero) | [a; b] => (a, b) | _ => (NI 0, NI 0) end in
+    match cparts a, cparts b with
+    | Some (ar, ai, ac), Some (br, bi, bc) =>
+        Ret (VComplex (if bc then fsub ar bi else ar) (if ac then fadd br ai else br))
+    | _, _ => raise c_arith sp end
+  else check_type sp vs is_str ;;; check_arity sp (length vs) [1%nat] ;;; raise c_unmodelled sp.
 
 (* ---------- string.py ---------- *)
 Fixpoint is_prefix (p l:list N) : bool := match p, l with [], _ => true | x :: p', y :: l' => N.eqb x y && is_prefix p' l' | _, [] => false end.
@@ -491,7 +515,7 @@ Definition module_body (name:list Z) (sp:span) (argv:list value) : Comp value :=
           | _, _ => raise c_type sp end
       | _ => raise c_value sp end
   | [5; 6; -29; k] =>
-      vs <- match_arguments sp argv is_num [1%nat] ;;
+      vs <- match_arguments sp argv is_real [1%nat] ;;
       match vs with
       | [VInt n] => Ret (VInt n)
       | [VFloat f] => match rounding k f with Some n => Ret (VInt n) | None => raise c_arith sp (* repaired: host OverflowError / ValueError *) end
@@ -546,5 +570,5 @@ Definition builtin (n:Z) : span -> list value -> Comp value :=
   else if n =? b_fold then bi_fold else if n =? b_pipe then bi_pipe else if n =? b_collect then bi_collect else if n =? b_spread then bi_spread
   else if n =? b_input then bi_input else if n =? b_print then bi_print else if n =? b_return then bi_return else if n =? b_bind then bi_bind
   else if n =? b_pow then bi_pow else if n =? b_int then bi_integer else if n =? b_split then bi_split else if n =? b_join then bi_join
-  else if n =? b_import then bi_import else if n =? b_floatc then bi_float
+  else if n =? b_import then bi_import else if n =? b_floatc then bi_float else if n =? b_complexc then bi_complex
   else fun sp _ => raise c_notfound sp.
